@@ -387,6 +387,38 @@ def run_tab(case, seed):
     obs = {"points": npt}
     if zoom:
         obs["min_neighbour_energy_difference"] = dmin
+    # the stored rows in another order (batches accumulated in another order than the path: what a parallel run does):
+    # self_to_path must bring every point's own values back to its place.  Orders: the batches shifted cyclically by
+    # +1 / -1 (not their own inverse for >= 3 batches), reversed, and the points reversed.
+    if not zoom and not revisits and npt >= 3:
+        import copy
+        nb = -(-npt // kb)
+        batches = [list(range(b * kb, min((b + 1) * kb, npt))) for b in range(nb)]
+        orders = {"points_reversed": list(range(npt))[::-1], "points_shift": list(range(1, npt)) + [0]}
+        if nb >= 2:
+            orders["batches_shift+1"] = sum(batches[1:] + batches[:1], [])
+            orders["batches_shift-1"] = sum(batches[-1:] + batches[:-1], [])
+            orders["batches_reversed"] = sum(batches[::-1], [])
+        for oname, perm in orders.items():
+            perm = np.array(perm)
+            sh = copy.deepcopy(res)
+            sh.results = {r: res.results[r].to_path(perm) for r in res.results}
+            sh.kpoints = np.array(res.kpoints)[perm]
+            try:
+                sh.self_to_path(path)
+            except Exception as e:
+                return fail(f"self_to_path:raises:{type(e).__name__}", case, f"rows stored in the order {oname}: {e}", bool(nontrivial))
+            if differs(sh.kpoints, K, 1e-12):
+                return fail("self_to_path:kpoints_not_the_path", case, f"rows stored in the order {oname}", bool(nontrivial))
+            for q in res.results:
+                a, b = np.array(sh.results[q].data), np.array(res.results[q].data)
+                if a.shape != b.shape or np.abs(a - b).max() > TAB_TOL * max(1.0, np.abs(b).max()):
+                    bad = [j for j in range(npt) if a.shape != b.shape or np.abs(a[j] - b[j]).max() > TAB_TOL * max(1.0, np.abs(b).max())]
+                    return fail(f"self_to_path:{q}:value_of_another_point", case,
+                                f"rows stored in the order {oname} ({perm.tolist()}): after self_to_path the rows {bad[:8]} do not "
+                                f"hold their own point's values", bool(nontrivial))
+        obs["stored_orders"] = len(orders)
+        nontrivial.append(("stored_order", case["system"], kb, min(npt, 12)))
     return {"ok": True, "nontrivial": nontrivial or False, "obs": obs}
 
 
